@@ -5,12 +5,13 @@ V = os.path.dirname(os.path.dirname(os.path.abspath(__file__)))
 sys.path.insert(0, os.path.join(V, "lib"))
 import props, engines
 ALL = ["C%02d" % i for i in range(1, 21)]
+READY = set(open(os.path.join(V, "lib", "ready.txt")).read().split())
 TRUST = ("Coq 8.16.1 kernel; hand-written Gallina model tied to /repo by (a) a differential correspondence check on exhaustive small scopes "
          "and seeded random traces (harness compiled from /repo's working tree with ASan/UBSan) and (b) constants/macros/guards regenerated from the C source "
          "by gen/extract.py on every run; extraction with ExtrOcamlBasic only; see DESIGN.md section 5")
 checks = []
 for pid in ALL:
-    if pid not in props.PROPS: continue
+    if pid not in props.PROPS or pid not in READY: continue
     p = props.PROPS[pid]
     checks.append({
         "property_id": pid,
@@ -24,7 +25,7 @@ for pid in ALL:
         "technique": p.get("technique", "machine-checked Coq proof about an executable model + model/implementation correspondence check"),
     })
 na = [{"property_id": pid, "reason": props.NOT_CLAIMED.get(pid, "no check registered yet: the engine model for this property has not been built in this revision")}
-      for pid in ALL if pid not in props.PROPS]
+      for pid in ALL if pid not in props.PROPS or pid not in READY]
 m = {"version": 1,
      "setup_cmd": "./check setup",
      "hooks": {"guard": "CC_VERIF", "enable": "no hooks are needed: harnesses #include the library .c files (white box) and redirect malloc/calloc/free by macro; -DCC_VERIF is reserved and unused",
